@@ -116,3 +116,46 @@ def int_dtype__reach(dt: int, lim: int, a: int, b: int, st: int, with_data: bool
     post: __return__ == False
     """
     return _int_case(dt, lim, a, b, st, with_data)
+
+
+def _int_centered_case(dt, c, a, b, st, with_data):
+    """centred interval on integer-typed data with a Python-int centre (limits are derived from the data)"""
+    dtype = _pick(INT_DTYPES, dt)
+    info = np.iinfo(dtype)
+    lo, hi = int(info.min), int(info.max)
+    span = hi - lo
+    menu = [lo, lo + span // 5, lo + span // 2, hi - span // 5, hi]
+    x = sorted([_pick(menu, a), _pick(menu, b), lo + span // 3])
+    data = np.array(x, dtype=dtype)
+    vcenter = _pick([lo + span // 2 + 1, lo + span // 4, hi - span // 8, 0], c)
+    skw = _pick([dict(stretch_type="linear"), dict(stretch_type="power", power=2.0)], st)
+    kw = dict(data=data) if with_data else {}
+    norm = cn.CustomNormalization(interval_type="centered", vcenter=vcenter, **kw, **skw)
+    ref_norm = cn.CustomNormalization(interval_type="centered", vcenter=vcenter, **(dict(data=data.astype(np.float64)) if with_data else {}), **skw)
+    with np.errstate(all="ignore"):
+        y = np.asarray(norm(data.copy()), dtype=float)
+        ref = np.asarray(ref_norm(data.astype(np.float64)), dtype=float)
+    if not all(0.0 <= v <= 1.0 for v in y):
+        return False
+    if not all(y[i] <= y[i + 1] for i in range(len(y) - 1)):
+        return False
+    if not np.allclose(y, ref, atol=1e-9):
+        return False
+    return bool((data == np.array(x, dtype=dtype)).all())
+
+
+def int_dtype_centered(dt: int, c: int, a: int, b: int, st: int, with_data: bool) -> bool:
+    """
+    pre: 0 <= dt < len(INT_DTYPES) and 0 <= c < 4 and 0 <= a < 5 and 0 <= b < 5 and 0 <= st < 2
+    pre: _fix("dt", dt)
+    post: __return__ == True
+    """
+    return _int_centered_case(dt, c, a, b, st, with_data)
+
+
+def int_dtype_centered__reach(dt: int, c: int, a: int, b: int, st: int, with_data: bool) -> bool:
+    """
+    pre: 0 <= dt < len(INT_DTYPES) and 0 <= c < 4 and 0 <= a < 5 and 0 <= b < 5 and 0 <= st < 2
+    post: __return__ == False
+    """
+    return _int_centered_case(dt, c, a, b, st, with_data)
